@@ -39,6 +39,10 @@ CHECKS["C11"] = dict(engine="E3", level="exploration", technique="deterministic 
    text="A MemFS parent and 1-3 Sub views (of '/', of subdirectories, nested) act as clients whose whole calls are interleaved by the tape; each uses symlink-free absolute paths (with '.', '..', doubled separators) and, after its own Chdir, relative paths, with SetUser/SetUMask/Chdir mixed in at arbitrary instants. Every call is mirrored on a twin MemFS with the view's directory prefixed under the acting client's user and umask. After every call: same outcome and data, parent tree = twin tree seen by administrator observers (visibility and confinement), and user/umask/cwd of every client are what that client itself set. Sampling, not proof.",
    note="calls that would remove/move a view's directory or change the permissions of its proper ancestors are replaced by queries (the statement presumes the directory stays; a view is chroot-like and does not look above its root). A failed RemoveAll is resynchronised (documented partial effect).", ref="3/C11")
 
+CHECKS["C12"] = dict(engine="E3", level="fault_enumeration", technique="deterministic simulation with FailFS as fault injector: every 'fail the k-th invocation of primitive F' plan of each sampled history, plus no-fault and read-only plans, against a twin base",
+   text="For each seeded history (5-25 VFS and File calls, composites, objects returned by FailFS followed) on FailFS over MemFS or OrefaFS: plan 0 (no failure function installed) must equal the same history on a twin base call by call and in the final tree; a recording plan checks that every call consults the failure function and lists the invocations; then EVERY plan (F,k) is executed: the call in which the fault fires must fail (with exactly the injected error when the call is that primitive), the base snapshot with modification times must be unchanged around a failed primitive call, and the rest of the history must equal the twin on which that call was skipped; composites must fail for the primitives of the statement's table; under ReadOnlyFunc the base snapshot never changes. Exhaustive in (F,k) per history, sampled over histories.",
+   note="trusted: the twin base (same implementation); after a fault inside a composite the run is cut (earlier primitives of the composite had their effect); Glob ignores I/O errors by contract", ref="3/C12")
+
 NA = {
  "C13": "Clean, Join, Split, Dir, Base, IsAbs, Rel, Abs, FromSlash, ToSlash, VolumeName, Match and PathIterator are pure functions of their string arguments and the OS-type constant: there is no schedule, clock, I/O, fault or shared state for a simulator to control; generating strings is input fuzzing, a different technique (DESIGN.md section 4).",
 }
